@@ -181,15 +181,18 @@ CLAIMS = {
               'single-key operations, not yet by a theorem over a Gallina lookup program.'),
         design='4/C16'),
     'C17': dict(
-        technique='Coq verified monitor on fault traces + single fault at every gated call with rerun',
-        text=('PROOF (Coq, closed): C17_fault_trace_monitor (a run with an injected fault is a trace too: accepted => Inv and preservation at every '
-              'boundary, in particular in the state the failed operation leaves), C17_no_wrong_bytes, C17_rollback_is_noop. TIE: OSError(EIO) / '
-              'OperationalError injected at EVERY gated call of 12 (thorough 28) operation variants (~230 injections quick); afterwards raw + new-handle '
-              'examination, stale locks removed, rerun must complete and end in the same key->bytes map as an uninterrupted run with clean '
-              'validation (repack excepted, as the property says); the intercepted trace of EVERY fault run (events before the fault + what the '
-              'handlers did) is replayed through Store.apply_ev, must end in the folder the failed operation left (an unreferenced tail flushed by '
-              'the interpreter finaliser is tolerated, cf. C03_tolerates_unreferenced_tail) and must be accepted by the verified monitor. '
-              'PARTIAL: handlers (finally blocks) are not modelled as Gallina programs, so there is no all-inputs theorem for fault runs.'),
+        technique='Coq: fault = program prefix + handler events, proved safe for all inputs, fault points and handler sequences; verified monitor on fault traces; single fault at every gated call with rerun',
+        text=('PROOF (Coq, closed): C17_fault_in_add_loose / _pack / _clean / _delete / _repack / _add_to_pack / _import (FaultProofs.fault_anywhere: '
+              'for ALL inputs, an I/O error after ANY number of primitives of the operation followed by ANY sequence of handler events - handles '
+              'closed or flushed (their buffers reach the file), sandbox file removed, session rolled back - leaves Inv and every previously stored '
+              'object readable byte for byte), C17_handlers_only_append, C17_fault_trace_monitor, C17_no_wrong_bytes, C17_rollback_is_noop. '
+              'TIE: OSError(EIO) / OperationalError injected at EVERY gated call of 12 (thorough 28) operation variants (~280 injections quick); '
+              'afterwards raw + new-handle examination, stale locks removed, rerun must complete and end in the same key->bytes map as an '
+              'uninterrupted run with clean validation (repack excepted, as the property says); the intercepted trace of EVERY fault run is '
+              'replayed through Store.apply_ev, must end in the folder the failed operation left (an unreferenced tail flushed by the interpreter '
+              'finaliser is tolerated, cf. C03_tolerates_unreferenced_tail), must be accepted by the verified monitor, and what follows the failed '
+              'call must be handler events only (the hypothesis of the program theorems). PARTIAL: "a rerun completes" is decided by the fault sweep '
+              'only; pack roll-over inside one call is not in the programs.'),
         design='4/C17'),
     'C18': dict(
         technique='Coq descriptor-tracking theorem + balance/bound for the add-loose program + fd census, tracemalloc, trace write sizes',
